@@ -6,7 +6,7 @@ package eval
 //   cgf <paid> <usage> <minFee>                         ⇒ ok | err
 //   load <blockSize> <maxSize>                          ⇒ <micros>
 //   absent <totalStake> <stake> <lastSeen> <current>    ⇒ true | false
-//   payout <pct> <fees> <bonus> <sinkBal> <minBal>      ⇒ <microalgos> | err       (real BlockEvaluator.proposerPayout)
+//   payout <pct> <fees> <bonus> <sinkBal> <minBal> [nAssetsOfSink] ⇒ <microalgos> | err       (real BlockEvaluator.proposerPayout)
 //   vpay <claimed> <pct> <fees> <bonus> <sinkBal> <minBal> ⇒ ok | err             (real validateForPayouts, generate mode)
 import (
 	"fmt"
@@ -21,14 +21,22 @@ import (
 	"github.com/algorand/go-algorand/zz_verif_tools/vh"
 )
 
-func verifFeesEval(pct, fees, bonus, sinkBal, minBal, claimed uint64) *BlockEvaluator {
+func verifFeesEval(pct, fees, bonus, sinkBal, minBal, claimed, nassets uint64) *BlockEvaluator {
 	proto := config.Consensus[protocol.ConsensusFuture]
 	proto.Payouts.Enabled = true
 	proto.Payouts.Percent = pct
 	proto.MinBalance = minBal
 	var sink basics.Address
 	sink[0] = 0x7
-	ml := &mockLedger{balanceMap: map[basics.Address]basics.AccountData{sink: {MicroAlgos: basics.MicroAlgos{Raw: sinkBal}}}}
+	sinkData := basics.AccountData{MicroAlgos: basics.MicroAlgos{Raw: sinkBal}}
+	if nassets > 0 {
+		// the fee sink may hold assets (it can opt in): its own minimum balance is then above proto.MinBalance
+		sinkData.Assets = make(map[basics.AssetIndex]basics.AssetHolding)
+		for i := uint64(1); i <= nassets; i++ {
+			sinkData.Assets[basics.AssetIndex(i)] = basics.AssetHolding{}
+		}
+	}
+	ml := &mockLedger{balanceMap: map[basics.Address]basics.AccountData{sink: sinkData}}
 	var hdr bookkeeping.BlockHeader
 	hdr.FeeSink = sink
 	hdr.FeesCollected = basics.MicroAlgos{Raw: fees}
@@ -55,14 +63,22 @@ func verifFeesExec(op string) string {
 		case "absent":
 			return vh.B(isAbsent(basics.MicroAlgos{Raw: vh.U(f[1])}, basics.MicroAlgos{Raw: vh.U(f[2])}, basics.Round(vh.U(f[3])), basics.Round(vh.U(f[4]))))
 		case "payout":
-			ev := verifFeesEval(vh.U(f[1]), vh.U(f[2]), vh.U(f[3]), vh.U(f[4]), vh.U(f[5]), 0)
+			na := uint64(0)
+			if len(f) > 6 {
+				na = vh.U(f[6])
+			}
+			ev := verifFeesEval(vh.U(f[1]), vh.U(f[2]), vh.U(f[3]), vh.U(f[4]), vh.U(f[5]), 0, na)
 			p, err := ev.proposerPayout()
 			if err != nil {
 				return "err"
 			}
 			return fmt.Sprintf("%d", p.Raw)
 		case "vpay":
-			ev := verifFeesEval(vh.U(f[2]), vh.U(f[3]), vh.U(f[4]), vh.U(f[5]), vh.U(f[6]), vh.U(f[1]))
+			na := uint64(0)
+			if len(f) > 7 {
+				na = vh.U(f[7])
+			}
+			ev := verifFeesEval(vh.U(f[2]), vh.U(f[3]), vh.U(f[4]), vh.U(f[5]), vh.U(f[6]), vh.U(f[1]), na)
 			if err := ev.validateForPayouts(); err != nil {
 				return "err"
 			}
@@ -121,20 +137,25 @@ func verifFeesGenerate() []string {
 			bonus := []uint64{0, 10000000, uint64(rng.Intn(20000000)), rng.Biased64()}[rng.Intn(4)]
 			minBal := []uint64{100000, 0, uint64(rng.Intn(1000000))}[rng.Intn(3)]
 			want := fees/100*pct + bonus
-			sink := []uint64{minBal, minBal + want, minBal + want/2, minBal - 1, 0, rng.Biased64(), minBal + 1}[rng.Intn(7)]
+			na := uint64(0)
+			if rng.Chance(50) {
+				na = uint64(1 + rng.Intn(4))
+			}
+			sinkMin := minBal * (1 + na)
+			sink := []uint64{sinkMin, sinkMin + want, sinkMin + want/2, sinkMin - 1, 0, rng.Biased64(), sinkMin + 1, minBal + want, minBal + 1}[rng.Intn(9)]
 			if i%5 == 2 {
-				ops = append(ops, fmt.Sprintf("payout %d %d %d %d %d", pct, fees, bonus, sink, minBal))
+				ops = append(ops, fmt.Sprintf("payout %d %d %d %d %d %d", pct, fees, bonus, sink, minBal, na))
 			} else {
 				avail := uint64(0)
-				if sink > minBal {
-					avail = sink - minBal
+				if sink > sinkMin {
+					avail = sink - sinkMin
 				}
 				mx := want
 				if avail < mx {
 					mx = avail
 				}
 				claimed := []uint64{mx, mx + 1, mx - 1, 0, rng.Biased64(), want, avail}[rng.Intn(7)]
-				ops = append(ops, fmt.Sprintf("vpay %d %d %d %d %d %d", claimed, pct, fees, bonus, sink, minBal))
+				ops = append(ops, fmt.Sprintf("vpay %d %d %d %d %d %d %d", claimed, pct, fees, bonus, sink, minBal, na))
 			}
 		}
 	}
